@@ -168,6 +168,12 @@ def find_stmts(body, pred):
     return out
 
 
+def empty_container(v):
+    if isinstance(v, (ast.Dict, ast.List, ast.Set)) and not (v.keys if isinstance(v, ast.Dict) else v.elts):
+        return True
+    return isinstance(v, ast.Call) and not v.args and not v.keywords and last(dotted(v.func) or '') in ('dict', 'list', 'set', 'IDSet', 'IDDict', 'OrderedDict', 'deque', 'defaultdict', 'bytearray')
+
+
 def single_def(fn, name, before=None):
     '''The value of the only binding `name = value` in the function's own scope (optionally: located before line `before`), else None.'''
     found = []
@@ -176,11 +182,52 @@ def single_def(fn, name, before=None):
             found.append(n)
     if len(found) != 1:
         return None
+    a = getattr(fn, 'args', None)
+    if a is not None and name in [x.arg for x in a.posonlyargs + a.args + a.kwonlyargs + ([a.vararg] if a.vararg else []) + ([a.kwarg] if a.kwarg else [])]:
+        return None     # a parameter that is re-bound has two definitions
+    mut = getattr(fn, '_mutated_cache', None)       # an object that is filled in place is not what its initial value says
+    if mut is None:
+        from .normalize import MUTATORS
+        mut = set()
+
+        def root(r):
+            while isinstance(r, (ast.Attribute, ast.Subscript, ast.Starred)):
+                r = r.value
+            return r.id if isinstance(r, ast.Name) else None
+        for st in ast.walk(fn):
+            if isinstance(st, (ast.Subscript, ast.Attribute)) and isinstance(st.ctx, (ast.Store, ast.Del)):
+                mut.add(root(st))
+            elif isinstance(st, ast.AugAssign):
+                mut.add(root(st.target))
+            elif isinstance(st, ast.Call):
+                if isinstance(st.func, ast.Attribute) and st.func.attr in MUTATORS:
+                    mut.add(root(st.func.value))
+                for kw in st.keywords:
+                    if kw.arg == 'out':
+                        mut.update(sub.id for sub in ast.walk(kw.value) if isinstance(sub, ast.Name))
+        try:
+            fn._mutated_cache = mut
+        except Exception:
+            pass
+    if name in mut:
+        return None
     for n in walk_no_nested(fn):
+        v = None
         if isinstance(n, ast.Assign) and len(n.targets) == 1 and n.targets[0] is found[0]:
-            return n.value if before is None or n.lineno < before else None
-        if isinstance(n, ast.AnnAssign) and n.target is found[0] and n.value is not None:
-            return n.value if before is None or n.lineno < before else None
+            v = n.value
+        elif isinstance(n, ast.Assign) and len(n.targets) == 1 and isinstance(n.targets[0], (ast.Tuple, ast.List)) and isinstance(n.value, ast.Call) \
+                and any(t is found[0] for t in n.targets[0].elts) and not any(isinstance(t, ast.Starred) for t in n.targets[0].elts):
+            # a, b = f(...): `a` denotes f(...)[0]
+            k = [i for i, t in enumerate(n.targets[0].elts) if t is found[0]][0]
+            v = ast.Subscript(value=n.value, slice=ast.Constant(value=k), ctx=ast.Load())
+            ast.copy_location(v, n.value)
+            ast.fix_missing_locations(v)
+        elif isinstance(n, ast.AnnAssign) and n.target is found[0] and n.value is not None:
+            v = n.value
+        if v is not None:
+            if empty_container(v):
+                return None     # an empty container bound to a name is there to be filled (possibly by a callee)
+            return v if before is None or n.lineno < before else None
     return None
 
 
@@ -212,3 +259,10 @@ def deep_resolved(fn, expr, before=None, depth=6):
                     return T(self.d - 1).visit(copy.deepcopy(v))
             return n
     return T(depth).visit(copy.deepcopy(expr))
+
+
+def resolved_return(fn, which=-1):
+    '''What the function returns (its last return by default), with local names bound once replaced by their right-hand sides.'''
+    rets = [n for n in walk_no_nested(fn) if isinstance(n, ast.Return) and n.value is not None]
+    rets.sort(key=lambda r: (r.lineno, r.col_offset))
+    return deep_resolved(fn, rets[which].value) if rets else None
